@@ -96,7 +96,7 @@ def run_case(ctx, case):
 
     with core.time_limit(120):
         try:
-            s = jedi.Script(text, path=path)
+            s = boot.fresh_script(text, path=path)
         except Exception as e:
             ctx.judge(api.bucket(e, "Script"), api.tb_tail(e), case)
             return
